@@ -91,6 +91,17 @@ def _case(draw, tier):
         form = draw(st.sampled_from(["nary", "binl", "binr"]))
         case["cond"] = [conn, form, parts]
         case["split_top"] = conn == "and" and draw(st.booleans())
+        if chance(draw, 1, 3) and not A.has_kind(case["cond"], "not"):
+            if chance(draw, 1, 3):
+                # the plain story: two sub-queries over the same variable(s), q1 | q2 or q1 & q2, nothing else
+                vs_ = [draw(st.sampled_from(allv))] if chance(draw, 2, 3) else allv
+                mk = lambda: ["sub", "entity", [vs_[0]], leaf(draw, ctx, vs_ if len(vs_) == 1 else draw(st.sampled_from([vs_, vs_, [vs_[0]]])))]
+                parts = [mk(), mk()]
+                case["cond"] = [draw(st.sampled_from(["or", "or", "and"])), draw(st.sampled_from(["nary", "binl"])), parts]
+                case["split_top"] = False
+            n_sub = sum(1 for x in parts if x[0] == "sub")
+            case["subqueries_used_before"] = {"alone": [draw(st.sampled_from(["full", "full", "full", 1, None])) for _ in range(n_sub)],
+                                              "earlier_conn": draw(st.sampled_from([None, None, "and", "or"]))}
         k = draw(st.integers(1, nv))
         case["sel"] = [["var", v] for v in list(draw(st.permutations(allv)))[:k]]
         case["desc"] = "entity" if (k == 1 and draw(st.booleans())) else "set_of"
@@ -175,9 +186,30 @@ def check(case) -> Outcome:
             comp_sets.append((ns, na, {ident(x) for x in r}))
         nontrivial = all(0 < ns < na for ns, na, _ in comp_sets) and all({ident(x) for x in expected} != s for _, _, s in comp_sets)
         classes += ["conn_" + case["cond"][0], "form_" + case["cond"][1]] + sorted({"wrap_" + s[1] for s in subs})
+        if case.get("subqueries_used_before"):
+            classes.append("subquery_objects_evaluated_before_the_enclosing_query_was_built")
 
         def run(c):
             V, conts = declare_vars(c, objs)
+            story = case.get("subqueries_used_before")
+            if story and c is case:
+                # the sub-query OBJECTS exist before the enclosing query: each was built as a query of its own and some were
+                # evaluated on their own (to the end, or given up after a result), or inside an earlier enclosing query
+                from ..build import Vars
+                V = Vars(V)
+                V.smemo, V.sused = {}, set()
+                with symbolic_mode():
+                    own = [build_cond(sq, V) for sq in subs]
+                for q_, how in zip(own, story["alone"]):
+                    if how == "full":
+                        list(q_.evaluate())
+                    elif how:
+                        abandon(q_, how)
+                if story.get("earlier_conn") and len(subs) >= 2:
+                    V.sused = set()
+                    pre = build_over(V, dict(c, cond=[story["earlier_conn"], "nary", subs], split_top=False), conts=conts)
+                    list(pre.q.evaluate())
+                V.sused = set()
             b = build_over(V, c, conts=conts)
             abandon(b.q, case.get("abandon_first", 0))
             first = rows_of(b, list(b.q.evaluate()))
